@@ -3,12 +3,14 @@ Line-protocol driver: one JSON object per input line (`{"op": …, …}`), one J
 per output line (`{"r": …}` or `{"error": …}`).  Pure function of the line.
 -/
 import Rpft.Drv.Cell
+import Rpft.Drv.Row
 open Lean Rpft.Drv
 
 def dispatch (j : Json) : Except String Json := do
   let opj ← j.getObjVal? "op"
   let op ← opj.getStr?
   if op.startsWith "cell." || op.startsWith "str." then handleCell op j
+  else if op.startsWith "row." then handleRow op j
   else throw s!"unknown op {op}"
 
 partial def loop (hin : IO.FS.Stream) (hout : IO.FS.Stream) : IO Unit := do
